@@ -12,87 +12,20 @@
 mod buffer_pool;
 mod genscn;
 mod scenario;
+#[path = "../../common/shuttle_server.rs"]
+mod shuttle_server;
 
 use scenario::{PoolModel, Release, Scenario};
 use serde::{Deserialize, Serialize};
-use shuttle::scheduler::{PctScheduler, RandomScheduler, Schedule, Scheduler, Task, TaskId};
-use simcore::catch::catch;
+use shuttle_server::Sched;
 use simcore::driver::{self, Ctx, Engine, EngineInfo, Outcome, Tier, Violation};
 use simcore::rng::{fnv64, mix, Rng};
 use std::sync::{Arc, Mutex as StdMutex};
-
-#[derive(Clone, Debug, Serialize, Deserialize, PartialEq)]
-pub enum Sched {
-    Random { seed: u64 },
-    Pct { seed: u64, depth: usize },
-    /// Follow this list of task ids; when it runs out or names a task that is
-    /// not runnable, continue with the first runnable task.
-    Explicit(Vec<usize>),
-}
 
 #[derive(Clone, Debug, Serialize, Deserialize)]
 pub struct PoolCase {
     pub scenario: Scenario,
     pub sched: Sched,
-}
-
-/// Wraps a scheduler and records the task chosen at every scheduling point.
-struct Recording<S> {
-    inner: S,
-    log: Arc<StdMutex<Vec<usize>>>,
-}
-
-impl<S: Scheduler> Scheduler for Recording<S> {
-    fn new_execution(&mut self) -> Option<Schedule> {
-        self.inner.new_execution()
-    }
-    fn next_task(&mut self, runnable: &[&Task], current: Option<TaskId>, is_yielding: bool) -> Option<TaskId> {
-        let t = self.inner.next_task(runnable, current, is_yielding);
-        if let Some(t) = t {
-            self.log.lock().unwrap().push(usize::from(t));
-        }
-        t
-    }
-    fn next_u64(&mut self) -> u64 {
-        self.inner.next_u64()
-    }
-}
-
-struct Guided {
-    list: Vec<usize>,
-    pos: usize,
-    done: bool,
-}
-
-impl Scheduler for Guided {
-    fn new_execution(&mut self) -> Option<Schedule> {
-        if self.done {
-            None
-        } else {
-            self.done = true;
-            self.pos = 0;
-            Some(Schedule::new(0))
-        }
-    }
-    fn next_task(&mut self, runnable: &[&Task], current: Option<TaskId>, _is_yielding: bool) -> Option<TaskId> {
-        let want = self.list.get(self.pos).copied();
-        self.pos += 1;
-        if let Some(w) = want {
-            if let Some(t) = runnable.iter().find(|t| usize::from(t.id()) == w) {
-                return Some(t.id());
-            }
-        }
-        // lenient fall-back: keep running the current task if possible
-        if let Some(c) = current {
-            if runnable.iter().any(|t| t.id() == c) {
-                return Some(c);
-            }
-        }
-        runnable.first().map(|t| t.id())
-    }
-    fn next_u64(&mut self) -> u64 {
-        0x9E37_79B9_7F4A_7C15
-    }
 }
 
 struct PoolEngine {
@@ -109,25 +42,10 @@ fn config() -> shuttle::Config {
 
 /// One controlled execution. Returns (first violation, schedule, model counters).
 fn execute(case: &PoolCase) -> (Option<(String, String)>, Vec<usize>, (u64, u64, u64, u64)) {
-    let log = Arc::new(StdMutex::new(Vec::new()));
     let model = Arc::new(StdMutex::new(PoolModel::default()));
     let sc = case.scenario.clone();
     let m2 = model.clone();
-    let body = move || scenario::run(&sc, m2.clone());
-    let l2 = log.clone();
-    let sched = case.sched.clone();
-    let r = catch(move || match sched {
-        Sched::Random { seed } => {
-            shuttle::Runner::new(Recording { inner: RandomScheduler::new_from_seed(seed, 1), log: l2 }, config()).run(body);
-        }
-        Sched::Pct { seed, depth } => {
-            shuttle::Runner::new(Recording { inner: PctScheduler::new_from_seed(seed, depth.max(1), 1), log: l2 }, config()).run(body);
-        }
-        Sched::Explicit(list) => {
-            shuttle::Runner::new(Recording { inner: Guided { list, pos: 0, done: false }, log: l2 }, config()).run(body);
-        }
-    });
-    let schedule = log.lock().unwrap().clone();
+    let (r, schedule) = shuttle_server::execute(&case.sched, config, false, move || scenario::run(&sc, m2.clone()));
     let m = model.lock().unwrap_or_else(|e| e.into_inner());
     let counters = (m.allocs, m.hits, m.hits_larger, m.returned);
     let mut v = m.violations.first().cloned();
@@ -162,8 +80,8 @@ impl Engine for PoolEngine {
     fn new(_p: &str, tier: Tier, _seed: u64) -> Self {
         PoolEngine {
             n: match tier {
-                Tier::Quick => 250_000,
-                Tier::Thorough => 6_000_000,
+                Tier::Quick => 5_000_000,
+                Tier::Thorough => 100_000_000,
             },
         }
     }
